@@ -117,7 +117,7 @@ CHECKS = {
         note='Trusted: TLC, lxml, walker/stored scan. $Number$ addressing only (as the property states); period offsets outside the last half of the last source segment.',
         design='4 C12'),
     'C13': dict(
-        technique='TLA+ spec HttpRange.tla (RFC 7233 single-range semantics): TLC exhaustive small scope; emitted table replayed on the '
+        technique='TLA+ spec HttpRange.tla (RFC 7233 single-range semantics): TLC exhaustive small scope + Apalache over unbounded integers; emitted table replayed on the '
                   'real get_http_range; real range requests on every range-capable URL kind; TLC trace validation',
         text='TLC enumerates every header shape with every integer 0..8 in every position against lengths 1..6, checks totality of the '
              'RFC outcome classes and that the implementation-shaped model satisfies every clause; the table (plus large-length boundary '
@@ -126,7 +126,7 @@ CHECKS = {
         note='Trusted: TLC; the RFC 7233 grammar classifier (regex) and the body/slice comparison in the projection. Init segments are out of scope.',
         design='4 C13'),
     'C19': dict(
-        technique='TLA+ spec IsoTime.tla (integer reference for ms rounding with carry, civil calendar, long-division timecode reference): '
+        technique='TLA+ spec IsoTime.tla / IsoDuration.tla (integer reference for ms rounding with carry, civil calendar, long-division timecode reference; the rounding also checked over unbounded integers with Apalache): '
                   'TLC over every fraction in scope; real rendering/parsing results tokenised and validated by TLC',
         text='TLC checks that the integer reference (and the implementation-shaped model) keeps every rendered duration within 500 us with '
              'fields below 60 for every ms boundary +-1 us (all 10^6 fractions in thorough); the real toIsoDuration / from_isodatetime / '
